@@ -303,8 +303,7 @@ fn roundtrip_case<const N: usize>() {
     }
     // ---- round trip (C11)
     let r = BloomFilter::deserialize(&bytes);
-    assert!(r.is_ok(), "own image rejected");
-    let g = r.unwrap();
+    let g = crate::verif_kani_common::expect_ok(r, "own image rejected");
     assert!(g.seed == seed && g.num_hashes == k && g.num_bits_set == f.num_bits_set);
     assert!(g.bit_array.len() == N);
     let mut i = 0;
@@ -365,8 +364,7 @@ fn foreign_case<const NW: usize>() {
         i += 1;
     }
     let r = BloomFilter::deserialize(&img[..32 + 8 * n]);
-    assert!(r.is_ok(), "valid foreign image rejected");
-    let g = r.unwrap();
+    let g = crate::verif_kani_common::expect_ok(r, "valid foreign image rejected");
     assert!(g.seed == seed && g.num_hashes == k);
     assert!(g.bit_array.len() == n);
     assert!(g.bit_array[0] == words[0]);
